@@ -113,6 +113,14 @@ class StudyTiling(object):
         :meth:`tile_image` will behave differently.
 
         """
+        # As in the constructor, work with Python integers whatever the caller
+        # handed us: a NumPy scalar such as ``np.int16(30000)`` would otherwise
+        # make the offset sums below wrap around (or raise) in its own width.
+        subim_ix = int(subim_ix)
+        subim_iy = int(subim_iy)
+        subim_width = int(subim_width)
+        subim_height = int(subim_height)
+
         if subim_width < 0 or subim_width > self._width:
             raise ValueError("bad subimage width value {!r}".format(subim_width))
         if subim_height < 0 or subim_height > self._height:
@@ -188,6 +196,17 @@ class StudyTiling(object):
           255. Measured down from the top edge of the tiling.
 
         """
+        # Integer positions are widened first: in a caller's narrow dtype (say
+        # uint16 indexes into a 66000-pixel image, or uint8 scalars) adding the
+        # offset wraps around silently and dividing by 256 raises.
+        im_ix = np.asarray(im_ix)
+        im_iy = np.asarray(im_iy)
+
+        if im_ix.dtype.kind in "iub":
+            im_ix = im_ix.astype(np.int64)
+        if im_iy.dtype.kind in "iub":
+            im_iy = im_iy.astype(np.int64)
+
         gx = im_ix + self._img_gx0
         gy = im_iy + self._img_gy0
         tile_ix = np.floor(gx // 256).astype(int)
